@@ -218,6 +218,21 @@ class ItemList:
             if source is not None and source._ids is not None:
                 del self._ids
 
+        if (
+            source is not None
+            and vocabulary is not None
+            and source._vocab is not None
+            and vocabulary is not source._vocab
+            and item_ids is None
+            and item_nums is None
+        ):
+            # item numbers are relative to the vocabulary: keep the identifiers
+            # and let the numbers be recomputed through the new vocabulary
+            if self._ids is None:
+                assert source._numbers is not None
+                self._ids = source._vocab.ids(source._numbers.numpy())
+            self._numbers = None
+
         if scores is False:  # check 'is False' to distinguish from None
             scores = None
         else:
